@@ -454,6 +454,10 @@ impl<'a> UserModel<'a> {
                 selected_column,
             )?;
             for (ext_sheet, ext_row, ext_col, new_formula) in ext_updates {
+                // the formulas that were just pasted already point at the new location
+                if ext_sheet == sheet && seen_cells.contains(&(ext_row, ext_col)) {
+                    continue;
+                }
                 let old_cell = self
                     .model
                     .workbook
